@@ -207,10 +207,20 @@ class EndpointMethodGenerator:
 
             writer.dedent()
 
-        # Add else clause for error
+        # Add else clause: no content-type parameter was provided
         writer.write_line("else:")
         writer.indent()
-        writer.write_line('raise ValueError("One of the content-type parameters must be provided")')
+        if op.request_body.required:
+            writer.write_line('raise ValueError("One of the content-type parameters must be provided")')
+        else:
+            # The request body is optional: send the request without a body
+            writer.write_line("response = await self._transport.request(")
+            writer.indent()
+            writer.write_line(f'"{op.method.value.upper()}", url,')
+            writer.write_line("params=None,")
+            writer.write_line("headers=None")
+            writer.dedent()
+            writer.write_line(")")
         writer.dedent()
         writer.write_line("")
 
